@@ -38,21 +38,25 @@ def attrOf? : Term → Option Attr
       | _ => none
   | _ => none
 
-def contentOf (t : Term) : Content :=
+/-- Canonical content of a message term.  A term headed `reach` / `unreach` / `eor` must be well formed (else the
+    whole case is ill-formed: `none`, both sides print `(bad-case)`); every other term is a genuinely different
+    message (`open`, `notif`, `keepalive`, `rr`, `err`, `multi`) and is kept as its characters. -/
+def contentOf? (t : Term) : Option Content :=
   match t with
-  | .list [.atom "reach", f, .list es, nh, .list attrs] =>
-      match asNat? f, es.mapM entOf?, nhOf? nh, attrs.mapM attrOf? with
-      | some f, some es, some nh, some as => .reach f es nh as
-      | _, _, _, _ => .other (strBytes (toStr t))
-  | .list [.atom "unreach", f, .list es] =>
-      match asNat? f, es.mapM entOf? with
-      | some f, some es => .unreach f es
-      | _, _ => .other (strBytes (toStr t))
-  | .list [.atom "eor", f] =>
-      match asNat? f with
-      | some f => .eor f
-      | none => .other (strBytes (toStr t))
-  | t => .other (strBytes (toStr t))
+  | .list (.atom "reach" :: rest) =>
+      match rest with
+      | [f, .list es, nh, .list attrs] => do
+          pure (.reach (← asNat? f) (← es.mapM entOf?) (← nhOf? nh) (← attrs.mapM attrOf?))
+      | _ => none
+  | .list (.atom "unreach" :: rest) =>
+      match rest with
+      | [f, .list es] => do pure (.unreach (← asNat? f) (← es.mapM entOf?))
+      | _ => none
+  | .list (.atom "eor" :: rest) =>
+      match rest with
+      | [f] => (asNat? f).map .eor
+      | _ => none
+  | t => some (.other (strBytes (toStr t)))
 
 def embOf? : Term → Option (Option Bytes)
   | .atom "panic" => some none
@@ -69,8 +73,8 @@ def reasonOf? : Term → Option DownReason
   | .atom "remote-unexpected" => some .remoteUnexpected
   | .atom "deconfigured" => some .deconfigured
   | .list [.atom "local-fsm", n] => (natLt? 65536 n).map .localFsm
-  | .list [.atom "local-notif", e, m] => (embOf? e).map fun e => .localNotif e (contentOf m)
-  | .list [.atom "remote-notif", e, m] => (embOf? e).map fun e => .remoteNotif e (contentOf m)
+  | .list [.atom "local-notif", e, m] => do pure (.localNotif (← embOf? e) (← contentOf? m))
+  | .list [.atom "remote-notif", e, m] => do pure (.remoteNotif (← embOf? e) (← contentOf? m))
   | _ => none
 
 def tlvOf? : Term → Option (Nat × Bytes)
@@ -99,14 +103,14 @@ def recOf? : Term → Option Rec
   | .atom "bmp-term" => some .bmpTerm
   | .atom "bmp-mirror" => some .bmpMirror
   | .list [.atom "bmp-rm", h, ap, e, m] => do
-      pure (.bmpRm (← hdrOf? h) (← asBool? ap) (← embOf? e) (contentOf m))
+      pure (.bmpRm (← hdrOf? h) (← asBool? ap) (← embOf? e) (← contentOf? m))
   | .list [.atom "bmp-up", h, la, lp, rp, e, ml, mr] => do
       pure (.bmpUp (← hdrOf? h) (← ipOf? la) (← natLt? 65536 lp) (← natLt? 65536 rp) (← embOf? e)
-        (contentOf ml) (contentOf mr))
+        (← contentOf? ml) (← contentOf? mr))
   | .list [.atom "bmp-down", h, r] => do pure (.bmpDown (← hdrOf? h) (← reasonOf? r))
   | .list (.atom "bmp-init" :: tlvs) => (tlvs.mapM tlvOf?).map .bmpInit
   | .list [.atom "mrt-mp", h, ap, e, m] => do
-      pure (.mrtMp (← mphOf? h) (← asBool? ap) (← embOf? e) (contentOf m))
+      pure (.mrtMp (← mphOf? h) (← asBool? ap) (← embOf? e) (← contentOf? m))
   | .list (.atom "td-peers" :: ts :: rid :: peers) => do
       pure (.tdPeers (← natLt? 4294967296 ts) (← bytesLen? 4 rid) (← peers.mapM peerOf?))
   | .list (.atom "td-rib" :: v6 :: ts :: seq :: .list [.atom "pfx", mask, addr] :: ents) => do
@@ -118,7 +122,7 @@ def recOf? : Term → Option Rec
   | _ => none
 
 def rowOf? : Term → Option (Bool × Bytes × Content)
-  | .list [.atom "f", ap, b, c] => do pure ((← asBool? ap), (← asBytes? b), contentOf c)
+  | .list [.atom "f", ap, b, c] => do pure ((← asBool? ap), (← asBytes? b), (← contentOf? c))
   | _ => none
 
 def caseOf? : Term → Option Case
